@@ -64,7 +64,51 @@ def setter_effects(lib):
                         eff[fld] = kind if eff.get(fld) in (None, kind) else "update"
         if eff and b["locals"][0]["ty"].startswith("api::MuxerBuilder"):
             out[mir.norm(p).split("::")[-1]] = eff
+    # delegation: a setter that hands `self` to another setter inherits that setter's effects
+    changed = True
+    rounds = 0
+    while changed and rounds < 5:
+        changed = False
+        rounds += 1
+        for p, b in lib.bodies.items():
+            if b["in_test_cfg"] or not b.get("impl_self", "").startswith("api::MuxerBuilder") or not b["locals"][0]["ty"].startswith("api::MuxerBuilder"):
+                continue
+            me = mir.norm(p).split("::")[-1]
+            for bb, t, name, info in mir.calls(b):
+                callee = mir.norm(name or "").split("::")[-1]
+                if name in lib.bodies and callee in out and callee != me and t["args"] and t["args"][0].get("k") in ("move", "copy") and t["args"][0]["place"]["l"] == 1:
+                    cur = out.setdefault(me, {})
+                    for fld, kind in out[callee].items():
+                        if cur.get(fld) != kind and cur.get(fld) != "update":
+                            cur[fld] = kind if fld not in cur else "update"
+                            changed = True
     return out
+
+
+def dispatch_rule(run, u):
+    mains = [k for k in u.bodies if mir.norm(k) == "main"]
+    if len(mains) != 1:
+        run.bad("R2", "anchor main", "main not found")
+        return
+    b = u.bodies[mains[0]]
+    n = 0
+    for bb, t, name, info in mir.calls(b):
+        if not (name in u.bodies and mir.norm(name).endswith("_command")):
+            continue
+        cb = u.bodies[name]
+        for i, a in enumerate(t["args"]):
+            pname = (mir.debug_name(cb, i + 1) or "").lstrip("_")
+            e = sym.expr(b, a)
+            # the option field the argument is read from: last named projection under `parse()`
+            fields = [y[2] for y in sym.walk(e) if isinstance(y, tuple) and len(y) == 3 and y[0] == "proj" and isinstance(y[2], str) and not y[2].startswith("as ") and not y[2].isdigit()]
+            if not fields:
+                continue
+            src = fields[0]
+            n += 1
+            alias = {"no_progress": "progress"}
+            run.check(alias.get(src, src).lstrip("_") == pname, "R2", "dispatch %s(%s)" % (mir.norm(name), pname), "from the parsed option `%s`" % src,
+                      "main passes the parsed option `%s` as parameter `%s` of %s: the options are crossed" % (src, pname, mir.norm(name)), mir.loc_of(t))
+    run.floor("R2", n, 20, "option -> command-parameter hand-overs in main")
 
 
 def order_rule(prog, run, u, b):
@@ -161,6 +205,8 @@ def check(prog, run):
             if "std::io::Write" in (info or {}).get("trait", "") and f_ != mux:
                 writers.append((mir.norm(f_), nm))
     run.check(not writers, "R1", "no-other-writer", "no filesystem write besides the create handed to the library", "the mux command can write files outside the library: %s" % writers)
+    # ---- R2 (dispatch): main hands each parsed option to the command parameter of the same name
+    dispatch_rule(run, u)
     # ---- R2 (ordering): a builder call that *replaces* a configuration field wholesale must not follow a call that set part of it
     order_rule(prog, run, u, b)
     # ---- R6: input decoding is loud
